@@ -419,6 +419,16 @@ def case_api(ctx, inp):
             sig = "api:udf-on-empty-partitions:dtype"
         elif obj_str and 'Attribute "dtype" are different' in msg:
             sig = "api:object-dtype-str-accessor:dtype"
+        elif ("str_cat" in names and inp.get("sdtype") != "object" and len(exp) == 0 and len(got) == 0
+              and 'Attribute "dtype" are different' in msg and 'column name="s2"' in msg
+              and str(got["s2"].dtype) == "object" and str(exp["s2"].dtype) == "str"):
+            # pandas itself returns object for `<empty str column> + "_"`: when every row is filtered away the empty
+            # partitions' object columns are all that is left (pandas on the whole frame adds first, filters later)
+            try:
+                pd.testing.assert_frame_equal(got.drop(columns="s2"), exp.drop(columns="s2"), check_exact=False, rtol=1e-12)
+                sig = "api:str-dtype-add:empty-result:object-vs-str"
+            except AssertionError:
+                pass
         elif ("or_filter_binop" in names and 'Attribute "dtype" are different' in msg
               and any(f'column name="{c}"' in msg for c in ("di", "df_"))):
             try:   # values must agree; only the int64/float64 choice of `x - x[pred]` may differ
